@@ -473,7 +473,7 @@ def _quotes_dropped(ctx):
             found = [x for a in _asts(ctx) for x in value_sites(a, v)] + [x for a in _asts(ctx) for x in value_sites(a, q + v + close[q])]
             bare = [st for st, _, ident in found if not ident]
             site = bare[0] if bare else (found[0][0] if found else ctx["sk"])
-            if site_group(site) == "data_type.Custom":
+            if site_group(site).endswith(".Custom") or site_group(site) == "Custom":
                 # modifiers of a custom data type are stored as bare strings: same root cause as FOO('a b')
                 return "datatype:custom-modifier-quotes"
             return "%s:%s" % ("identifier-quotes-dropped" if hit else "identifier-printed-unescaped", site_group(site))
